@@ -144,6 +144,9 @@ type Net struct {
 	queue  []*Sent
 	Refuse func(from int, to boson.Address, stream string) error  // optional: NewStream error
 	Reply  func(from int, to boson.Address, stream string) []byte // optional: bytes the opener reads back
+	// optional: called (on the opener's goroutine, no lock held) before an outgoing stream is queued; it may
+	// block, which holds the opener up at this send (a slow network) until the driver lets it go on
+	Gate func(from int, to boson.Address, stream string)
 }
 
 func NewNet() *Net { return &Net{} }
@@ -157,6 +160,9 @@ type streamer struct {
 }
 
 func (st *streamer) open(to boson.Address, protocol, stream string, relay bool) (p2p.Stream, error) {
+	if st.n.Gate != nil {
+		st.n.Gate(st.from, to, stream)
+	}
 	if st.n.Refuse != nil {
 		if err := st.n.Refuse(st.from, to, stream); err != nil {
 			return nil, err
